@@ -71,6 +71,14 @@ LAZY = ('json', 'yaml', 'msgpack', 'msgpackrpc')
 # answer every call with None / 404 and are not usable)
 CLIENT_PROTS = ('soap11', 'soap12', 'xml', 'msgpackrpc')
 RETURN_MARK = u'nothing to see'
+# (variant of an unrepresentable detail, output protocol) for which the tree
+# answers with the generic fault instead of the raised code and message
+AWKWARD_DEGRADES = set(
+    [(v, o) for v in ('bigint', 'set', 'obj-leaf')
+            for o in ('msgpack', 'msgpackrpc')] +
+    [('obj-leaf', o) for o in ('json', 'yaml')] +
+    [('detail-list', o) for o in ('xml', 'soap11', 'soap12')] +
+    [('detail-str', 'soap12')])
 
 
 def gen_cases(tier, verif_seed):
@@ -316,6 +324,22 @@ def judge(case, uni, info, body, raised):
         if not fam_ok:
             viol('awkward-code', 'unrepresentable fault payload (%s) answered '
                  'with code %r' % (exc['variant'], got[0]))
+        # where only the detail is out of the protocol's reach, code and
+        # message are ordinary and arrive as raised (the detail is excused);
+        # the cells listed in AWKWARD_DEGRADES are the ones where the
+        # serialiser of the tree cannot go on after meeting the payload
+        v = exc['variant']
+        if fam_ok and v not in ('msg-ctl-only', 'bytes-msg') and \
+                (v, out_prot) not in AWKWARD_DEGRADES and \
+                not (out_prot == 'httprpc' and site.startswith('gen')):
+            if code != exc['code']:
+                viol('awkward-code-lost', 'fault %r with an unrepresentable '
+                     'detail (%s) arrived with code %r' % (exc['code'], v,
+                                                           code))
+            elif (string or '') != exc['msg']:
+                viol('awkward-string-lost', 'fault with an unrepresentable '
+                     'detail (%s): message %r arrived as %r' % (v, exc['msg'],
+                                                                string))
         st = (info.get('status') or '')[:1]
         if route in ('wsgi', 'client') and st not in ('4', '5'):
             viol('awkward-status', 'unrepresentable fault payload (%s) '
